@@ -118,6 +118,10 @@ MappingVecs ==
   \o Cross2(PairSets, << -1, 1 >>, LAMBDA ps, d :
     [ops |-> << [op |-> "Twins", fns |-> MappingFns, in |-> MappingEnc(ps, << >>, d), cls |-> "mapping-size" \o ToString(d)] >>])
   \o SeqMap(LAMBDA ps : [ops |-> << [op |-> "Sweep", fn |-> "ReadMapping", in |-> MappingEnc(ps, << >>, 0) \o << 3, 4 >>, cls |-> "mapping"] >>], PairSets)
+  \* the parser's pair-count limit (MAX_MAPPING_PAIRS): 1000 pairs parse, the 1001st is an error
+  \o (IF Thorough THEN SeqMap(LAMBDA n : [ops |-> << [op |-> "Twins", fns |-> MappingFns,
+                                   in |-> MappingEnc([i \in 1..n |-> << BE16(i), ValX >>], << >>, 0), cls |-> "mapping-count" \o ToString(n)] >>],
+                               << 999, 1000, 1001 >>) ELSE << >>)
 
 Vecs == CASE Fam = "cert" -> CertVecs [] Fam = "ident" -> IdentVecs [] Fam = "mapping" -> MappingVecs
           [] OTHER -> CertVecs \o IdentVecs \o MappingVecs
